@@ -9,7 +9,7 @@ from harness.core import sp
 from harness.core.trees import Universe, get_path
 
 PID = "C11"
-RULE = ("a case is one dataclass C over {int,float,str,bool,enum,List[T],Tuple[T,..],Tuple[T,...]} registered at n destinations "
+RULE = ("a case is one dataclass C over {int,float,str,bool,enum (plain Enum, IntEnum, str-mixin Enum incl. one whose values are other members' names),List[T],Tuple[T,..],Tuple[T,...]} registered at n destinations "
         "under ALWAYS_MERGE in one of three shapes (flat: C at d0..d{n-1}; wrapped: P{m:C} at n destinations, with/without a "
         "default_factory and an own field of P; siblings: S{m0..m{k-1}:C} at r destinations, n=r*k, per-member default "
         "instances; flat also with add_arguments(default=instance) at every destination), with 1-3 fields, defaults incl. containers whose length equals n, and a command line giving each "
@@ -28,7 +28,7 @@ ASSUMPTIONS = [
 TRUSTED = ["stdlib argparse and ast.literal_eval", "harness rendering of structured tokens to command-line strings "
            "(re-checked against the model's Tok.render in op merge.tok)"]
 EXHAUSTIVE = {"quick": False, "thorough": False}
-THOROUGH_ROUNDS = 4   # thorough tier: this many generator passes with derived PRNG states (vcheck)
+THOROUGH_ROUNDS = 5   # thorough tier: this many generator passes with derived PRNG states (vcheck)
 MANIFEST = {
     "text": ("Proof (full for the modelled configurations; one open finding outside them). Lean theorems over the model of the "
              "reused FieldWrapper, for every n >= 2 (no bound) and every field type (scalar, List, Tuple): option absent -> "
@@ -49,8 +49,34 @@ MANIFEST = {
 }
 
 COLORS = ["RED", "GREEN", "BLUE"]
-ENUM_T = {"k": "enum", "cls": "Color", "members": COLORS}
-ITEMS = [{"k": "int"}, {"k": "float"}, {"k": "str"}, {"k": "bool"}, ENUM_T]
+ENUM_T = {"k": "enum", "cls": "Color", "members": COLORS, "values": [0, 1, 2]}                       # plain Enum
+PRIO_T = {"k": "enum", "cls": "Prio", "members": ["P0", "P1", "P2"], "values": [0, 1, 2]}          # IntEnum (P0 is falsy)
+LEVEL_T = {"k": "enum", "cls": "Level", "members": ["LOW", "MID", "HIGH", "NONE"],                  # class Level(str, Enum)
+           "values": ["low", "mid", "high", ""]}                                                   #   (NONE is falsy)
+SWAP_T = {"k": "enum", "cls": "SwapS", "members": ["UP", "DOWN", "LEFT", "RIGHT"],                  # str-mixin whose VALUES are
+          "values": ["DOWN", "UP", "RIGHT", "LEFT"]}                                               #   other members' names
+ENUMS = [ENUM_T, PRIO_T, LEVEL_T, SWAP_T]
+STR_MIXIN = {"Level", "SwapS"}     # members are `str` instances (Level via trees.ENUM_MIXINS, SwapS built here)
+ENUM_BY_CLS = {e["cls"]: e for e in ENUMS}
+ITEMS = [{"k": "int"}, {"k": "float"}, {"k": "str"}, {"k": "bool"}] + ENUMS
+
+
+def new_universe():
+    """a fresh Universe holding the four enum classes of this plug-in"""
+    import enum as _enum
+
+    U = Universe()
+    U.enums["SwapS"] = _enum.Enum("SwapS", dict(zip(SWAP_T["members"], SWAP_T["values"])), type=str)
+    for e in (ENUM_T, PRIO_T, LEVEL_T):
+        U.enum(e["cls"], e["members"], e["values"])
+    return U
+
+
+def enum_invalid(it):
+    """words that are no member NAME: foreign words, and member VALUES that are not names"""
+    out = ["PINK", "4", it["members"][0].lower()]
+    out += [str(v) for v in it["values"] if str(v) and str(v) not in it["members"] and " " not in str(v)]
+    return [w for w in out if w not in it["members"]]
 VALID = {
     "int": ["0", "4", "5", "-3", "12", "100", "7"],
     "float": ["1.5", "-0.25", "2.0", "3", "0.5", "10.75", "-2"],
@@ -206,7 +232,7 @@ def src_of(c, fi):
 
 
 def class_specs(c):
-    specs = [{"enum": True, "name": "Color", "members": COLORS}]
+    specs = []
     fields = []
     for f in c["fields"]:
         d = {"kind": "missing"} if f["default"] is None else {"kind": "value", "v": f["default"]}
@@ -232,7 +258,7 @@ def class_specs(c):
 
 
 def build_parser(c):
-    U = Universe().add_classes(class_specs(c))
+    U = new_universe().add_classes(class_specs(c))
     sp.reset_globals()
     parser = sp.make_parser({"cr": "ALWAYS_MERGE"})
     top = U.classes["C"] if c["shape"] == "flat" else U.classes["P"]
@@ -321,7 +347,7 @@ def impl(case):
     if op == "merge.tok":
         from simple_parsing import utils
 
-        U = Universe().add_classes([{"enum": True, "name": "Color", "members": COLORS}])
+        U = new_universe()
         s = render(c["tok"])
         if is_container(c["ty"]):
             fn = utils._parse_multiple_containers(py_type(U, c["ty"]))
@@ -397,10 +423,10 @@ _Missing = _MissingT()
 
 def impl_mixed(c):
     """the class both at top level and as a member of another registered class (oracle only)"""
-    specs = [{"enum": True, "name": "Color", "members": COLORS},
+    specs = [
              {"name": "C", "fields": [{"name": "fa", "ty": {"k": "int"}, "default": {"kind": "value", "v": {"t": "int", "v": "1"}}}]},
              {"name": "P", "fields": [{"name": "m", "ty": {"k": "dc", "cls": "C"}, "default": {"kind": "factory", "v": None}}]}]
-    U = Universe().add_classes(specs)
+    U = new_universe().add_classes(specs)
     sp.reset_globals()
     parser = sp.make_parser({"cr": "ALWAYS_MERGE"})
     paths = []
@@ -431,7 +457,30 @@ def model_case(case, obs):
         return {"n": n_of(cc), "ty": cc["fields"][c["fi"]]["ty"], "src": src_of(cc, c["fi"])}
     if op == "merge.dests":
         return {"root": c["root"], "first": c["first"], "others": c["others"]}
+    if op == "merge.dist":
+        unwrap = len(c["values"]) == 1 and c["values"][0].get("t") in ("list", "tuple") and len(c["values"][0]["v"]) == c["n"]
+        return dict(c, values=[_as_code_sees(c["ty"], v, unwrap) for v in c["values"]])
     return c
+
+
+def _as_code_sees(ty, v, unwrap=False):
+    """A member of a str-mixin Enum IS a `str` (its value) for `isinstance(x, str)`, `E[x]` and `tuple(x)`: where the code
+    applies one of those to a parsed value, the model is given that str.  (scalar enum field: `postprocess` looks any str
+    up by name, at top level and after the nesting-level-2 un-wrapping; tuple field: `tuple(x)` of a bare item.)"""
+    def conv(x):
+        if x.get("t") == "enum" and x.get("cls") in STR_MIXIN:
+            e = ENUM_BY_CLS[x["cls"]]
+            return {"t": "str", "v": e["values"][e["members"].index(x["v"])]}
+        return x
+
+    if ty["k"] == "enum":
+        if v.get("t") in ("list", "tuple"):
+            # only the nesting-level-2 shortcut hands the ITEMS of a container to `postprocess`
+            return dict(v, v=[conv(x) for x in v["v"]]) if unwrap else v
+        return conv(v)
+    if ty["k"] in ("tuple", "vtuple") and v.get("t") == "enum":
+        return conv(v)
+    return v
 
 
 def project(case, obs):
@@ -617,6 +666,8 @@ def V_item(it, w):
 
 def rand_word(rng, it, invalid_p=0.0):
     k = it["k"]
+    if k == "enum":
+        return rng.choice(enum_invalid(it)) if rng.random() < invalid_p else rng.choice(it["members"])
     if INVALID[k] and rng.random() < invalid_p:
         return rng.choice(INVALID[k])
     return rng.choice(VALID[k])
@@ -624,6 +675,8 @@ def rand_word(rng, it, invalid_p=0.0):
 
 def rand_default_word(rng, it):
     k = it["k"]
+    if k == "enum":
+        return rng.choice(it["members"])
     return rng.choice(VALID[k])
 
 
@@ -720,7 +773,7 @@ def sweep(rng, tier):
 
 
 def random_cases(rng, tier):
-    total = 2000 if tier == "quick" else 30000
+    total = 2000 if tier == "quick" else 20000
     ns = [2, 3, 4] if tier == "quick" else [2, 3, 4, 5, 6]
     for _ in range(total):
         shape = rng.choice(["flat", "flat", "wrapped", "siblings"])
@@ -779,14 +832,15 @@ def add_reg_defaults(rng, c, mask):
 
 
 def tok_cases(rng, tier):
-    total = 1000 if tier == "quick" else 10000
+    total = 1000 if tier == "quick" else 6000
     tys = field_types(2) + [{"k": "tuple", "items": [{"k": "int"}, {"k": "str"}]}, {"k": "tuple", "items": [{"k": "str"}, {"k": "int"}]}]
     for _ in range(total):
         ty = rng.choice(tys)
         if is_container(ty) and rng.random() < 0.35:
             # mixed-type words: exercise the literal / fall-back split and the conversions of literals
             m = rng.randint(0, 3)
-            ws = [rng.choice(rng.choice(list(VALID.values())) + ["x", "PINK", "maybe"]) for _ in range(m)]
+            ws = [rng.choice(rng.choice(list(VALID.values()) + [e["members"] for e in ENUMS]) + ["x", "PINK", "maybe", "low"])
+                  for _ in range(m)]
             shape = rng.choice(["bare", "spaced", "comma", "sq", "paren"])
             if shape == "bare":
                 tok = {"k": "bare", "w": ws[0] if ws else "4"}
@@ -810,7 +864,7 @@ def rand_value(rng, ty, n):
         return {"t": rng.choice(["list", "tuple"]) if r < 0.5 else ("list" if ty["k"] == "list" else "tuple"),
                 "v": [spec_item(it, rand_default_word(rng, it)) for _ in range(m)]}
     if ty["k"] == "enum" and r < 0.7:
-        return {"t": "str", "v": rng.choice(COLORS)}
+        return {"t": "str", "v": rng.choice(ty["members"] + enum_invalid(ty)[:1])}
     if r < 0.85:
         return spec_item(ty, rand_default_word(rng, ty))
     m = rng.choice([1, 2, n, n])
@@ -818,7 +872,7 @@ def rand_value(rng, ty, n):
 
 
 def dist_cases(rng, tier):
-    total = 1000 if tier == "quick" else 8000
+    total = 1000 if tier == "quick" else 5000
     for _ in range(total):
         n = rng.choice([2, 3, 4] if tier == "quick" else [2, 3, 4, 5, 6])
         ty = rng.choice(field_types(n))
@@ -828,7 +882,7 @@ def dist_cases(rng, tier):
 
 def shape_cases(rng, tier):
     """set-up only: packaged defaults / nargs / required of one field (merge.pack) and the merged wrapper tree (merge.dests)"""
-    total = 600 if tier == "quick" else 4000
+    total = 600 if tier == "quick" else 2500
     for _ in range(total):
         shape = rng.choice(["flat", "wrapped", "siblings"])
         if shape == "siblings":
